@@ -416,6 +416,12 @@ func (fc *followerController) append(req *proto.Append, stream proto.OxiaLogRepl
 	fc.Lock()
 	defer fc.Unlock()
 
+	if fc.isClosed() {
+		// The controller was closed (e.g. this node was told to lead the shard) while
+		// the stream of the previous leader was still delivering entries
+		return constant.ErrAlreadyClosed
+	}
+
 	if req.Term != fc.term {
 		return constant.ErrInvalidTerm
 	}
@@ -468,17 +474,23 @@ func (fc *followerController) handleReplicateSync(stream proto.OxiaLogReplicatio
 			fc.closeStream(err)
 			return
 		}
+		// Closing the controller releases the log: do not touch it afterwards
+		w := fc.wal
+		if w == nil {
+			fc.Unlock()
+			return
+		}
 		fc.Unlock()
 
-		oldHeadOffset := fc.wal.LastOffset()
+		oldHeadOffset := w.LastOffset()
 
-		if err := fc.wal.Sync(stream.Context()); err != nil {
+		if err := w.Sync(stream.Context()); err != nil {
 			fc.closeStream(err)
 			return
 		}
 
 		// Ack all the entries that were synced in the last round
-		newHeadOffset := fc.wal.LastOffset()
+		newHeadOffset := w.LastOffset()
 		for offset := oldHeadOffset + 1; offset <= newHeadOffset; offset++ {
 			if err := stream.Send(&proto.Ack{Offset: offset}); err != nil {
 				fc.closeStream(err)
